@@ -266,6 +266,16 @@ impl Send {
             // the reset frame before transitioning the stream inside
             // `reclaim_all_capacity`.
             self.prioritize.clear_queue(buffer, stream, counts);
+        } else {
+            // Only the frame that opens the stream is kept. Whatever was queued
+            // behind it (DATA, trailers) is unsent data of a reset stream: it
+            // must not go out, and it must not hold the reset back while it
+            // waits for flow control.
+            let head = stream.pending_send.pop_front(buffer);
+            self.prioritize.clear_queue(buffer, stream, counts);
+            if let Some(head) = head {
+                stream.pending_send.push_front(buffer, head);
+            }
         }
 
         let frame = frame::Reset::new(stream.id, reason);
